@@ -238,6 +238,52 @@ pub fn check(sc: &Scenario, ex: &mut Exec) -> (Verdict, Option<String>) {
             }
         }
     }
+    // I3': the cap seen through pivotal keys. With the effective threshold at t (only counts above
+    // t pass), a released key k for which unit u is pivotal - n_k > t but n_k - 1 <= t, u among the
+    // holders - needs u's own contribution, so it is one of the at most Cu groups u was limited to.
+    if sigma_ir > 0.0 && tau_ir.is_finite() && violations.is_empty() {
+        'outer: for t_eff in [1.5f64, 2.5] {
+            let z = (tau_ir - t_eff) / sigma_ir;
+            if z.abs() > 37.0 {
+                continue;
+            }
+            let need = t_eff.ceil() as usize; // n_k == need  <=>  every holder is pivotal
+            let mut pivotal_of: BTreeMap<String, Vec<&Vec<String>>> = BTreeMap::new();
+            for (k, us) in &holders {
+                if us.len() == need {
+                    for u in us {
+                        pivotal_of.entry(u.clone()).or_default().push(k);
+                    }
+                }
+            }
+            if pivotal_of.values().map(|v| v.len()).max().unwrap_or(0) <= sc.params.cu as usize {
+                continue;
+            }
+            ex.stats.fault("unit_pivotal_in_more_than_cu_groups");
+            for (name, mode) in [("seeded", DrawMode::Seeded), ("inc", DrawMode::Inc), ("const", DrawMode::Const(0.5))] {
+                let plan = DrawPlan::neutral(sc.engine_seed ^ 0x77).with_thr_z(z).with_row_id(DrawMode::Inc).with_cap(mode);
+                if let Ok((rs, _)) = ex.query(&mut eng, "dp_pivotal", &dp_sql, &plan) {
+                    let rel = released(&rs);
+                    for (u, ks) in &pivotal_of {
+                        let out = ks.iter().filter(|k| rel.contains(**k)).count();
+                        if out > sc.params.cu as usize {
+                            violations.push(Violation {
+                                property: "C04".into(),
+                                invariant: "cap_exceeded_pivotal".into(),
+                                class: "unclassified".into(),
+                                detail: format!(
+                                    "capping schedule {}, only counts above {} pass: unit {} is pivotal for {} keys (each held by exactly {} units, this one included) and {} of them are released; a unit limited to Cu = {} groups can be pivotal for at most Cu released keys",
+                                    name, t_eff, u, ks.len(), need, out, sc.params.cu
+                                ),
+                                witness: json!({"unit": u, "pivotal_for": ks.len(), "released": out, "cu": sc.params.cu, "effective_threshold": t_eff, "schedule": name}),
+                            });
+                            break 'outer;
+                        }
+                    }
+                }
+            }
+        }
+    }
     let singleton = holders.values().any(|s| s.len() == 1);
     let shape = mini_shape(
         sc,
